@@ -111,6 +111,11 @@ def run_lhs(ctx, ntok, first, via, second=None):
     default_mode = bool(ctx.bool('default_mode'))
     enf = common.mk_enforcer(rules=policy.Rules.from_dict(rules),
                              use_conf=default_mode)
+    if not default_mode and bool(ctx.bool('cleared_and_reused')):
+        # Enforcer.clear() and a second life with the same rules
+        enf.enforce('p', dict(target), dict(creds))
+        enf.clear()
+        enf.set_rules(policy.Rules.from_dict(rules))
     detail = {'lhs': lhs, 'via': via, 'target': sorted(target),
               'use_conf': default_mode}
     got = _enforce(ctx, enf, 'p', target, creds, 'lhs:exception', detail)
